@@ -34,6 +34,7 @@
     tag without advancing, so no loop iteration of the model consumes nothing. *)
 From Coq Require Import ZArith List Bool String.
 From KV Require Import Base Wire Cursor CursorProofs Schema SchemaSem KmipCodec DecSafe DecSafeProofs DecTerm DecTermProofs.
+From KV Require TextFmt.
 From KVGen Require Import KmipSchema.
 Import ListNotations.
 Open Scope Z_scope.
@@ -167,6 +168,22 @@ Theorem C02_kmip_unmarshal_returns : forall root bs,
   (exists v, kmip_unmarshal root bs = Ok v) \/ kmip_unmarshal root bs = Err.
 Proof. exact kmip_unmarshal_returns. Qed.
 Print Assumptions C02_kmip_unmarshal_returns.
+
+(** ttlv.UnmarshalXML / ttlv.UnmarshalJSON into a message, for any tag / enumeration registry:
+    in terms of the number of raw elements of the cursor the reader builds from the document *)
+Theorem C02_kmip_unmarshal_xml_terminates : forall G root doc cut,
+  (root = "kmip.RequestMessage" \/ root = "kmip.ResponseMessage")%string ->
+  (forall c, TextFmt.xml_cursor G doc cut = Ok c -> (B_kmip + K_ELEM * csize c <= FUEL)%nat) ->
+  kmip_unmarshal_xml G root doc cut <> OutOfFuel.
+Proof. exact kmip_unmarshal_xml_terminates. Qed.
+Print Assumptions C02_kmip_unmarshal_xml_terminates.
+
+Theorem C02_kmip_unmarshal_json_terminates : forall G root doc,
+  (root = "kmip.RequestMessage" \/ root = "kmip.ResponseMessage")%string ->
+  (forall c, TextFmt.json_cursor G doc = Ok c -> (B_kmip + K_ELEM * csize c <= FUEL)%nat) ->
+  kmip_unmarshal_json G root doc <> OutOfFuel.
+Proof. exact kmip_unmarshal_json_terminates. Qed.
+Print Assumptions C02_kmip_unmarshal_json_terminates.
 
 (** Non-vacuity.  A real request (protocol 1.4, one Get batch item, 120 bytes, 10 raw
     elements) decodes - back to the message that was encoded - with fuel EQUAL to the bound
